@@ -282,3 +282,58 @@ func VerifC13ManyPartitions() {
 	}
 	zzverif.Cover("done")
 }
+
+// VerifC13StreamRetry: a streamed range over more keys than one streamed batch holds (300), with
+// one transient engine fault at an iterator step after the first batch has already been sent to
+// the client: the worker retries its partition — the client must still see every qualifying key
+// exactly once, or the stream's terminator must carry the error.
+func VerifC13StreamRetry() {
+	w := vNewWorld(1)
+	n := zzverif.Param("streamkeys", 304)
+	rev := w.base
+	names := make([][]byte, n)
+	for i := 0; i < n; i++ {
+		names[i] = []byte{'/', 'r', '/', 's', byte('0' + i/100), byte('0' + i/10%10), byte('0' + i%10)}
+		w.s.RawPut(w.b.coder.EncodeRevisionKey(names[i]), uint64ToBytes(rev))
+		w.s.RawPut(w.b.coder.EncodeObjectKey(names[i], rev), []byte("v"))
+	}
+	at := 2*300 + 2*zzverif.Choose("faultAfter", 3) // two records per key: after 300, 301, 302 keys
+	fired := false
+	w.s.IterFault = func(start []byte, step int) bool {
+		if !fired && step == at {
+			fired = true
+			zzverif.Cover("fault-after-first-batch")
+			return true
+		}
+		return false
+	}
+	ch, err := w.b.ListByStream(vCtx(), w.b.coder.EncodeObjectKey([]byte("/r/"), 0), w.b.coder.EncodeObjectKey([]byte("/r0"), 0), rev)
+	zzverif.Assert(err == nil, "stream starts")
+	seen := make([]int, n)
+	nterm, errText := 0, ""
+	for resp := range ch {
+		rr := resp.RangeResponse
+		zzverif.Assert(rr != nil, "every streamed message has a range response")
+		if !rr.More {
+			nterm++
+			errText = resp.Err
+			continue
+		}
+		for _, kv := range rr.Kvs {
+			k := kv.Key
+			zzverif.Assert(len(k) == 7, "streamed key is one of the stored keys")
+			i := int(k[4]-'0')*100 + int(k[5]-'0')*10 + int(k[6]-'0')
+			seen[i]++
+		}
+	}
+	zzverif.Assert(nterm == 1, "the stream ends with exactly one terminator")
+	if errText == "" {
+		for i := 0; i < n; i++ {
+			zzverif.Assert(seen[i] == 1, "a stream that ends without error holds every qualifying key exactly once")
+		}
+		zzverif.Cover("completed")
+	} else {
+		zzverif.Cover("failed-with-error")
+	}
+	zzverif.Cover("done")
+}
